@@ -75,22 +75,32 @@ class Roles:
                 r = rule_of(term)
                 if r in RULES:
                     direct.setdefault(r, []).append((b, i, term, site, how))
+        # a body in which the legs of two or more rules are visible is the cascade (or above it), not a leg producer
+        seen_rules = {}
+        for r, cs in direct.items():
+            for c in cs:
+                seen_rules.setdefault(c[0].id, set()).add(r)
+        multi = {bid for bid, rs in seen_rules.items() if len(rs) >= 2}
+
+        def pure_builder(b):
+            """only assembles the value: no `&mut` parameter and no in-place Decimal arithmetic"""
+            if any(b.local_ty(k + 1).startswith("&mut ") or b.local_ty(k + 1).startswith("&'_ mut ") for k in range(b.argc)):
+                return False
+            return not any(is_decimal_arith_assign(t["callee"]) for _, t in b.calls())
         for r in RULES:
-            cands = direct.get(r, [])
+            cands = [c for c in direct.get(r, []) if c[0].id not in multi] or direct.get(r, [])
             if not cands:
                 continue
-            # prefer the outermost body: one that obtains the aggregate through a helper call, if any
-            outer = [c for c in cands if c[4].startswith("via:")]
-            pick = outer if outer else cands
-            bodies = {c[0].id for c in pick}
-            if len(bodies) != 1:
-                # several bodies: keep the one not called by another candidate
-                called = {c[4][4:] for c in outer}
-                pick = [c for c in pick if c[0].id not in called] or pick
+            # the producer is the innermost function that does more than assemble the value: drop pure builders, then
+            # drop every candidate that merely obtains the leg from another remaining candidate
+            pool = [c for c in cands if not pure_builder(c[0])] or cands
+            pool_ids = {c[0].id for c in pool}
+            pick = [c for c in pool if not (c[4].startswith("via:") and c[4][4:] in pool_ids and c[4][4:] != c[0].id)] or pool
             b = pick[0][0]
             self.legs[r] = (b, [(c[1], c[2], c[3]) for c in pick if c[0].id == b.id])
-            for c in outer:
-                self.helpers.add(c[4][4:])
+            for c in pick:
+                if c[0].id == b.id and c[4].startswith("via:"):
+                    self.helpers.add(c[4][4:])
 
     def leg(self, r):
         if r not in self.legs:
